@@ -1,5 +1,5 @@
 (** C07 — linting is pure, deterministic and independent of scheduling. Pinned statements only. *)
-From Sq Require Import Base.Bytes Sched.Model Sched.Proofs Sched.PureModel Sched.PureProofs
+From Sq Require Import Base.Bytes Sched.Model Sched.Proofs Sched.DedupProofs Sched.PureModel Sched.PureProofs
   Sched.VerdictModel Sched.VerdictProofs.
 From Coq Require Import Permutation.
 
@@ -47,8 +47,8 @@ Proof. exact collect_buckets. Qed.
 Print Assumptions C07_no_panic_and_buckets.
 
 (** Every selected file appears exactly once in the result, no other file appears, and its entry is
-    the result of linting that file — when the expansion lists no file twice (distinct,
-    non-overlapping path arguments; overlapping arguments are C19's finding). *)
+    the result of linting that file — for the fan-in alone, on expansion lists that hold no path
+    twice (what the expansion loop hands over: [C07_dedup_each_file_exactly_once] below). *)
 Theorem C07_each_exactly_once : forall res (lint : N -> res) ignored exps order bs p,
   NoDup (expanded exps) ->
   Permutation order (selected ignored exps) -> collect res lint exps order = Some bs ->
@@ -69,6 +69,46 @@ Theorem C07_batch_independent : forall res lint ign1 ign2 exps1 exps2 o1 o2 bs1 
          /\ filter (fun e : N * res => fst e =? p) (concat bs2) = [e] /\ e = (p, lint p).
 Proof. exact batch_independent. Qed.
 Print Assumptions C07_batch_independent.
+
+(** [lint_paths] with its expansion loop ([seen_files]: a file already reached through an earlier
+    argument, or earlier in the same expansion, is skipped; "the same file" = the same identity,
+    however the path is spelled). For all path arguments — repeated, overlapping, the same file
+    under several spellings — all ignore predicates and all completion orders: no panic, one
+    directory per argument, no file twice. *)
+Theorem C07_dedup_at_most_once : forall res (lint : N -> res) ident exps ignored order,
+  Permutation order (selected ignored (kept ident exps)) ->
+  exists bs, lint_paths res lint ident exps order = Some bs /\ length bs = length exps
+    /\ forall f, (length (of_file res ident f bs) <= 1)%nat.
+Proof. exact dedup_at_most_once. Qed.
+Print Assumptions C07_dedup_at_most_once.
+
+(** ... and with an ignore predicate that is a property of the file: a file has exactly one entry
+    when some argument reaches it and it is not ignored, none otherwise; the entry carries a path
+    of the expansion and the result of linting that path. *)
+Theorem C07_dedup_each_file_exactly_once : forall res (lint : N -> res) ident exps ign order,
+  Permutation order (selected (fun p => ign (ident p)) (kept ident exps)) ->
+  exists bs, lint_paths res lint ident exps order = Some bs /\ length bs = length exps
+    /\ forall f, length (of_file res ident f bs) =
+         (if existsb (fun p => ident p =? f) (expanded exps) && negb (ign f) then 1%nat else 0%nat)
+       /\ Forall (fun e => In (fst e) (expanded exps) /\ snd e = lint (fst e)) (of_file res ident f bs).
+Proof. exact dedup_each_file_exactly_once. Qed.
+Print Assumptions C07_dedup_each_file_exactly_once.
+
+(** What is reported for a file is the same in two invocations with other arguments, other
+    spellings, other ignored files and another schedule (given [H_pure]: linting depends on the
+    file only). *)
+Theorem C07_dedup_batch_independent :
+  forall res (lint : N -> res) (lintf : N -> res) ident ign1 ign2 exps1 exps2 o1 o2 bs1 bs2 f,
+  (forall p, lint p = lintf (ident p)) ->
+  Permutation o1 (selected (fun p => ign1 (ident p)) (kept ident exps1)) ->
+  Permutation o2 (selected (fun p => ign2 (ident p)) (kept ident exps2)) ->
+  lint_paths res lint ident exps1 o1 = Some bs1 -> lint_paths res lint ident exps2 o2 = Some bs2 ->
+  existsb (fun p => ident p =? f) (expanded exps1) = true -> ign1 f = false ->
+  existsb (fun p => ident p =? f) (expanded exps2) = true -> ign2 f = false ->
+  exists e1 e2, of_file res ident f bs1 = [e1] /\ of_file res ident f bs2 = [e2]
+    /\ snd e1 = lintf f /\ snd e2 = lintf f.
+Proof. exact dedup_batch_independent. Qed.
+Print Assumptions C07_dedup_batch_independent.
 
 (** The outcome of an invocation as the formatter accumulates it ([has_fail] = exit status of
     [sqruff lint], number of files reported): it does not depend on the order in which the worker
